@@ -404,7 +404,7 @@ impl Property for C15 {
         let submit = PartCfg {
             name: "submit",
             rule: "a generated history is run on twin instances, once with every deploy/call/transact payload in the hex field and once in the base64 field (published encoder): every response and the final observation must be identical. Non-trivial = >= 2 payload-carrying calls",
-            cases: ctx.tier.pick(160, 3000),
+            cases: ctx.tier.pick(400, 5000),
             max_shrink_iters: ctx.tier.pick(200, 800),
         };
         found.extend(explore(ctx, ev, &submit, submit_strategy, check_submit));
